@@ -51,26 +51,79 @@ func (e *Exec) funcEnv(fr *Frame, st *State) *Env {
 			env.vars[fv.Name()] = fr.fvals[i]
 		}
 	}
-	// loop-carried variables (phi comments) of headers dominating the current block
+	// source-level locals: the value a named variable has at the current program
+	// point is its nearest definition on the dominator chain - a phi carrying the
+	// variable's name, or a DebugRef (an assignment to, or a use of, the variable)
 	if fr.top && e.curBlock != nil {
-		for _, b := range fr.fn.Blocks {
-			if !b.Dominates(e.curBlock) {
-				continue
-			}
-			for _, in := range b.Instrs {
-				phi, ok := in.(*ssa.Phi)
-				if !ok {
-					break
+		nrange := 0
+		loops := findLoops(fr.fn)
+		var scanning *ssa.BasicBlock
+		set := func(name string, v Val) {
+			if name == "rangeindex" {
+				// only loops that contain the current point
+				if li := loops[scanning]; li == nil || !li.blocks[e.curBlock] {
+					return
 				}
-				v, bound := fr.vals[phi]
-				if !bound || phi.Comment == "" {
-					continue
-				}
-				if phi.Comment == "rangeindex" {
+				// range loops: iter is the innermost loop's iteration count, iter2 the next outer one, ...
+				nrange++
+				if nrange == 1 {
 					env.vars["iter"] = vInt(sx("+", v.t(), "1"))
 				} else {
-					env.vars[phi.Comment] = v
+					env.vars[fmt.Sprintf("iter%d", nrange)] = vInt(sx("+", v.t(), "1"))
 				}
+				return
+			}
+			if _, done := env.vars["\x00"+name]; done {
+				return
+			}
+			env.vars["\x00"+name] = Val{}
+			env.vars[name] = v
+		}
+		scan := func(b *ssa.BasicBlock, upto ssa.Instruction) {
+			scanning = b
+			end := len(b.Instrs)
+			if upto != nil {
+				for i, in := range b.Instrs {
+					if in == upto {
+						end = i + 1
+						break
+					}
+				}
+			}
+			for i := end - 1; i >= 0; i-- {
+				switch x := b.Instrs[i].(type) {
+				case *ssa.DebugRef:
+					if x.IsAddr {
+						continue
+					}
+					id, ok := x.Expr.(*ast.Ident)
+					if !ok {
+						continue
+					}
+					if obj := x.Object(); obj != nil && !types.Identical(obj.Type(), x.X.Type()) {
+						continue
+					}
+					if v, bound := fr.vals[x.X]; bound {
+						set(id.Name, v)
+					}
+				case *ssa.Phi:
+					if v, bound := fr.vals[x]; bound && x.Comment != "" {
+						set(x.Comment, v)
+					}
+				}
+			}
+		}
+		var upto ssa.Instruction
+		if e.curInstr != nil && e.curInstr.Block() == e.curBlock {
+			upto = e.curInstr
+		}
+		scan(e.curBlock, upto)
+		for b := e.curBlock.Idom(); b != nil; b = b.Idom() {
+			scan(b, nil)
+		}
+		for k := range env.vars {
+			if strings.HasPrefix(k, "\x00") {
+				delete(env.vars, k)
 			}
 		}
 	}
